@@ -142,7 +142,7 @@ Lemma ext_bh_conn c conn fc clh t : ext c t (bh_conn cap lower conn fc clh t).
 Proof.
   unfold bh_conn.
   destruct (negb (t_v11 t)).
-  - destruct (beqb conn _ && negb fc); [|apply ext_scof].
+  - destruct (beqb conn _ && negb fc && negb (t_cof t)); [|apply ext_scof].
     destruct (negb (truthy clh)); [apply ext_scof|]. apply ext_append. unfold server_field. tauto.
   - set (t1 := if beqb conn _ || fc then _ else t).
     assert (E1 : ext c t t1) by (subst t1; destruct (beqb conn _ || fc); [apply ext_scof|apply ext_refl]).
